@@ -186,8 +186,8 @@ func simExploreMain(args []string) int {
 		simCallTimeout = time.Duration(t) * time.Second
 	}
 	res := explore(sc, time.Duration(vkArgInt(args, "budget", 60))*time.Second, 0)
-	fmt.Printf("states=%d transitions=%d depth=%d devCompleted=%d exhaustive=%v cap=%q wall=%.1fs mismatches=%d deaths=%d order=%d/%d stats=%v\n",
-		res.States, res.Transitions, res.MaxDepth, res.DevCompleted, res.Exhaustive, res.Capped, res.Wall, res.Mismatches, res.WorkerDeaths, res.OrderSteps, res.OrderAlts, res.Stats)
+	fmt.Printf("states=%d transitions=%d depth=%d devCompleted=%d exhaustive=%v cap=%q wall=%.1fs mismatches=%d deaths=%d order=%d/%d chained=%d stats=%v\n",
+		res.States, res.Transitions, res.MaxDepth, res.DevCompleted, res.Exhaustive, res.Capped, res.Wall, res.Mismatches, res.WorkerDeaths, res.OrderSteps, res.OrderAlts, res.Chained, res.Stats)
 	for i, e := range res.Errors {
 		if i < 8 {
 			fmt.Println("ERR", e)
